@@ -9,7 +9,7 @@ from .. import core
 from ..core import SKIP
 
 ID = "C08"
-RULE = ("(v3: every interval argument is byte-compared with a copy taken before the call; multi-call sequences on one object; "
+RULE = ("(v4: + global_intersect on 1-3 chromosomes, pileup bedGraph, value_hist, Geometry.sort/accessors, StreamedGeometry, extend; v3: every interval argument is byte-compared with a copy taken before the call; multi-call sequences on one object; "
         "jaccard_all_vs_all with 3-5 sets) exhaustive: every multiset of <= 3 half-open intervals on contigs of size 1..S (quick S<=4, thorough S<=6) for "
         "pileup / event pileup / mask / merge (every distance 0..S) ; every pair of multisets of <= 2 intervals (quick S<=4, "
         "thorough S<=6) for count_overlap / intersect / unique_intersect / contingency / Jaccard / Forbes; sort: every list of "
@@ -47,7 +47,9 @@ MANIFEST = {
             "in-repo event pileup (bedgraph.get_pileup: sort endpoints, +-1, cumsum, drop duplicates) is well formed and equals the "
             "per-base count; count_overlap = sum over bases of (depth-1) and intersect covers every base (depth-1) times for ANY operands "
             "(key identity cov_pairing on independently sorted starts/stops), hence equal to the per-base values when each operand is "
-            "internally non-overlapping; the contingency table and unique_intersect are the per-base values; sort_intervals is a permutation "
+            "internally non-overlapping; the same for global_intersect on several chromosomes (globalIntersect_depth, by encoding "
+            "chromosomes at offsets); merge(I,0) is THE maximal-run decomposition (merge0_unique), merging is idempotent, mask / "
+            "count_overlap / intersect do not depend on input order; the contingency table and unique_intersect are the per-base values; sort_intervals is a permutation "
             "ordered by (chromosome, start, stop) (refutation of the shipped lexsort rule kept); clip and extend_to_size kernels, "
             "re-traced from the source on every run into Gen/C08.lean, stay inside the contig and have the stated lengths (omega). "
             "Correspondence: implementation vs Lean model vs Lean spec vs Python per-base oracle on every multiset of <= 3 "
